@@ -1,7 +1,7 @@
 (* C19 - Control paragraph is a case-insensitive mapping; typed fields are faithful. *)
 From Coq Require Import String.
 From Coq Require Import NArith ZArith List Bool.
-From DI Require Import Result PyStr Debcon Copyright Deps Mapping MappingFacts.
+From DI Require Import Result PyStr Debcon Copyright Deps Unsign Mapping MappingFacts Grammar822 ReadbackFacts.
 Import ListNotations.
 Open Scope N_scope.
 
@@ -54,6 +54,30 @@ Theorem C19_typed_fields : forall items out d,
                   (combine (map (fun kv => normalize_control_field_name (fst kv)) items) cs) out.
 Proof. exact typed_fields. Qed.
 Print Assumptions C19_typed_fields.
+
+(* rendering a paragraph of uniquely named fields ([a-z][a-z0-9-]* keys, single-line trimmed values)
+   and reading the rendering back gives the same mapping (corollary of the C06 grammar theorem; the
+   rendering must not look like a PGP envelope, and no key is content-type - finding F17) *)
+Theorem C19_render_readback : forall d, d <> [] -> Forall rb_entry d -> NoDup (map fst d) ->
+  Forall (fun kv => fst kv <> lit "content-type") d -> is_signed (dumps822 d) = false ->
+  from_text822 (dumps822 d) = d.
+Proof. exact dumps_readback. Qed.
+Print Assumptions C19_render_readback.
+
+(* a maintainer value "Name <address>" (words of atom characters, a dot-atom address) splits into
+   exactly that name and address and prints back unchanged *)
+Theorem C19_maintainer_roundtrip : forall n a, simple_phrase n = true -> simple_addr a = true ->
+  maintainer_from_value (n ++ [32; 60] ++ a ++ [62]) = Some (n, a) /\
+  maintainer_dumps (n, a) = n ++ [32; 60] ++ a ++ [62].
+Proof. exact maintainer_roundtrip. Qed.
+Print Assumptions C19_maintainer_roundtrip.
+
+Example C19_readback_nonvacuous :
+  from_text822 (dumps822 [(lit "package", lit "x"); (lit "md5sum", lit "a: b"); (lit "x-foo-2", lit "1.0 (beta)")]) =
+  [(lit "package", lit "x"); (lit "md5sum", lit "a: b"); (lit "x-foo-2", lit "1.0 (beta)")] /\
+  maintainer_from_value (lit "Jane R. Doe <jane.doe@example.org>") = None /\
+  maintainer_from_value (lit "Jane Doe <jane.doe@example.org>") = Some (lit "Jane Doe", lit "jane.doe@example.org").
+Proof. vm_compute. repeat split; reflexivity. Qed.
 
 Example C19_history_nonvacuous :
   run_ops str (step822 lower_name str) []
